@@ -1261,6 +1261,10 @@ def run(chk):
     chk.rule('C05.one-entity', "NumberWithUnitExtractor.extract, interpreted with stub matchers AND a separate-unit pattern that "
              'matches the unit character, returns exactly one entity per number + adjacent listed unit (none inside it)',
              floor=2, control=True)
+    chk.rule('C05.compound-order', "BaseMergedUnitExtractor.extract (currency), interpreted over candidate lists in the order "
+             "NumberWithUnitExtractor.extract hands them over (read by interpreting it on a probe: number-less units come behind "
+             "the amounts), returns 'N main and M fraction' as ONE entity with the two amounts as its parts, whatever number-less "
+             'currency words stand earlier or later in the text', floor=5, control=True)
     chk.rule('C05.format-once', "on BaseCurrencyParser.parse's single-amount path the emitted number is the unit parser's "
              'culture-formatted string, with culture_info.format() applied no further time', floor=3, control=True)
     chk.rule('C05.iso-value', "the value a currency amount is emitted with follows CurrencyNameToIsoCodeMap[unit name]: real code -> "
@@ -1336,6 +1340,7 @@ def run(chk):
             nforms += rule_shadow_key_case(ctx, p, ex, pa)
     rule_fresh(ctx)
     rule_one_entity(ctx)
+    rule_compound_order(ctx)
     rule_format_once(ctx)
     rule_brackets(ctx)
     rule_prefix_pick(ctx)
@@ -2024,6 +2029,223 @@ def rule_one_entity(ctx):
             chk.ok('C05.one-entity', cls.mod.path, construct, 'one entity per number+unit on %d texts' % n, fn.lineno)
 
 
+# ---- 'N main and M fraction' is ONE entity whatever else the text holds (BaseMergedUnitExtractor.extract interpreted over
+# candidate lists in the order NumberWithUnitExtractor.extract hands them over) -------------------------------------------
+# The grouping of BaseMergedUnitExtractor walks NEIGHBOURS OF THE LIST; NumberWithUnitExtractor.extract appends number-less
+# ('separate') units behind the amounts wherever they stand in the text.  Which order the list has is read from the source
+# (probe below), never assumed; the merged extractor is then interpreted with stubs that deliver exactly that order.
+
+COMPOUND_ITEMS = {'C': ('3', ' dd'), 'E': ('3', ' ee'), 'U': ('', 'ee'), 'V': ('', 'dd')}     # number part, unit part
+COMPOUND_SEPS = {'&': ' and ', ',': ', ', ';': ' xx '}
+COMPOUND_CONNECTOR = 'and'
+# (context name, kinds, separators); the amount under test is the last C, with the E that follows it
+COMPOUND_SCENARIOS = (
+    ('alone', 'CE', '&'),
+    ('single amount, a number-less main unit earlier in the text', 'VC', ','),
+    ('single amount, a number-less fraction unit earlier in the text', 'UC', ';'),
+    ('a number-less fraction unit earlier in the text', 'UCE', ',&'),
+    ('a number-less main unit earlier in the text', 'VCE', ';&'),
+    ('number-less units earlier and later in the text', 'UCEV', ';&,'),
+    ('two number-less units earlier in the text', 'VUCE', ',;&'),
+    ('a number-less unit later in the text', 'CEU', '&,'),
+    ('another amount and a number-less unit earlier in the text', 'UCCE', ',,&'),
+)
+
+
+def compound_layout(kinds, seps):
+    """text, items [(start, end exclusive, number end exclusive, kind)]"""
+    text, items = '', []
+    for i, k in enumerate(kinds):
+        num, unit = COMPOUND_ITEMS[k]
+        s = len(text)
+        text += num + unit
+        items.append((s, len(text), s + len(num), k))
+        if i < len(seps):
+            text += COMPOUND_SEPS[seps[i]]
+    return text, items
+
+
+def candidate_order(items, bare_last):
+    """the list order the unit extractor hands over: text order, or amounts in text order followed by the number-less units"""
+    if not bare_last:
+        return list(items)
+    return [i for i in items if i[2] > i[0]] + [i for i in items if i[2] == i[0]]
+
+
+def compound_run(idx, cls, fn, owner, text, items, order, er_cls, cur_type, num_type):
+    """interpret BaseMergedUnitExtractor.extract on `text`; the unit extractor, the number extractor and the connector
+    pattern are stubs of the checker.  Returns [(start, end inclusive, text, [(start, end inclusive) of each part])]"""
+    from ..ointerp import Interp, FuncRef, Obj, Native, PyExc, native
+    from .c12 import _stub_match, _regex_hooks
+
+    def mk(s, e, typ, data, src=text):
+        o = Obj(er_cls, {})
+        o.attrs.update({'start': s, 'length': e - s, 'text': src[s:e], 'type': typ, 'data': data, 'meta_data': None})
+        return o
+
+    def numbers(it, a, k):
+        if a[-1] != text:
+            it.fail(None, 'the number extractor is asked about something that is not the source text')
+        return [mk(s, ne, num_type, 'IntegerNum') for s, e, ne, kd in items if ne > s]
+
+    def units(it, a, k):
+        if a[-1] != text:
+            it.fail(None, 'the unit extractor is asked about something that is not the source text')
+        return [mk(s, e, cur_type, mk(0, ne - s, num_type, 'IntegerNum', text[s:e]) if ne > s else None) for s, e, ne, kd in order]
+
+    def connector_match(it, a, k):
+        s = a[0]
+        if not isinstance(s, str):
+            raise PyExc('TypeError: expected string')
+        if not s.startswith(COMPOUND_CONNECTOR):
+            return None
+        m = _stub_match(s, 0, len(COMPOUND_CONNECTOR))
+        m.table.update({'string': s, 'pos': 0, 'endpos': len(s)})
+        return m
+    cfg = Native({'extract_type': cur_type, 'unit_num_extractor': Native({'extract': native(numbers)}, 'number extractor'),
+                  'compound_unit_connector_regex': Native({'match': native(connector_match)}, 'pattern<connector>')}, 'config')
+    hooks = dict(_regex_hooks())
+    hooks['NumberWithUnitExtractor'] = lambda it, a, k: Native({'extract': native(units)}, 'unit extractor')
+    it = Interp(idx, hooks=hooks, where='C05.compound-order %s.%s' % (cls.name, fn.name), budget=400000)
+    out = it.call_function(FuncRef(cls.mod, fn, owner), [text], {}, None, selfobj=Obj(cls, {'config': cfg}))
+    if not isinstance(out, list):
+        raise AnalysisError('%s.%s does not return a list of results' % (cls.name, fn.name))
+
+    def span(o, what):
+        s, l = (o.attrs.get('start'), o.attrs.get('length')) if isinstance(o, Obj) else (None, None)
+        if not isinstance(s, int) or not isinstance(l, int):
+            raise AnalysisError('%s.%s returns %s without integer start/length' % (cls.name, fn.name, what))
+        return s, s + l - 1
+    res = []
+    for o in out:
+        s, e = span(o, 'a result')
+        t, d = o.attrs.get('text'), o.attrs.get('data')
+        if not isinstance(t, str):
+            raise AnalysisError('%s.%s returns a result without str text' % (cls.name, fn.name))
+        res.append((s, e, t, [span(p, 'a compound part') for p in d] if isinstance(d, list) else None))
+    return res
+
+
+def compound_problem(text, items, res):
+    """the amount under test - the last main amount C of `items` with the fraction amount E that follows it, if one does -
+    must come back as one entity [start of C, end of E] carrying its slice of the text and, for a pair, the two amounts, main
+    amount first, as its parts; nothing else returned may overlap it"""
+    c = [i for i, it_ in enumerate(items) if it_[3] == 'C']
+    if not c:
+        raise AnalysisError('C05.compound-order: scenario without a main amount')
+    main = items[c[-1]]
+    frac = items[c[-1] + 1] if c[-1] + 1 < len(items) and items[c[-1] + 1][3] == 'E' else None
+    ws, we = main[0], (frac or main)[1] - 1
+    whole = [r for r in res if (r[0], r[1]) == (ws, we)]
+    spans = [(r[0], r[1]) for r in res]
+    if not whole:
+        return 'the amount %r [%d,%d] is not returned as one entity; returned spans %s (texts %s)' % (
+            text[ws:we + 1], ws, we, spans, [r[2] for r in res])
+    if len(whole) > 1:
+        return 'the amount %r [%d,%d] is returned %d times' % (text[ws:we + 1], ws, we, len(whole))
+    s, e, t, parts = whole[0]
+    if t != text[ws:we + 1]:
+        return 'the entity [%d,%d] has text %r, its span addresses %r' % (s, e, t, text[ws:we + 1])
+    want = [(main[0], main[1] - 1)] + ([(frac[0], frac[1] - 1)] if frac else [])
+    if parts != want and (frac or parts is not None):
+        return 'the entity %r [%d,%d] carries the parts %s, expected %s %s' % (
+            t, s, e, parts, 'the main amount then the fraction amount' if frac else 'the amount alone', want)
+    for r in res:
+        if r is not whole[0] and r[0] <= we and ws <= r[1]:
+            return 'the entity %r [%d,%d] overlaps the amount %r [%d,%d]' % (r[2], r[0], r[1], t, ws, we)
+    return None
+
+
+def probe_candidate_order(ctx):
+    """does NumberWithUnitExtractor.extract hand a number-less unit that stands BEFORE an amount over behind it?
+    -> True / False / None (the probe does not deliver both candidates: C05.one-entity's business)"""
+    from ..ointerp import PyExc
+    from .c12 import unitcand_run, _char_runs
+    idx = ctx['idx']
+    cls = idx.cls(NWU + '.extractors.NumberWithUnitExtractor')
+    er_cls = idx.cls('recognizers_text.extractor.ExtractResult')
+    mr_cls = idx.cls('recognizers_text.matcher.match_result.MatchResult')
+    fn = cls.methods.get('extract')
+    if fn is None:
+        raise AnalysisError('anchor vanished: NumberWithUnitExtractor.extract')
+    _, node = idx.class_attr(ctx['consts'], 'SYS_UNIT_CURRENCY')
+    if not isinstance(node, ast.Constant):
+        raise AnalysisError('Constants.SYS_UNIT_CURRENCY not found')
+    verdicts = set()
+    for text, bare, amount in (('$ x 1$', (0, 0), (4, 5)), ('$ x 1 $ x 1$', (0, 0), (4, 6))):
+        try:
+            res = unitcand_run(idx, cls, fn, cls, text, '', '$', er_cls, mr_cls, node.value, separate=lambda src: _char_runs(src, '$'))
+        except PyExc:
+            return None
+        spans = [(s, e) for s, e, _ in res]
+        if bare not in spans or amount not in spans:
+            return None
+        verdicts.add(spans.index(bare) > spans.index(amount))
+    if len(verdicts) != 1:
+        raise AnalysisError('C05.compound-order: NumberWithUnitExtractor.extract orders its candidates differently on the two probe texts')
+    return verdicts.pop()
+
+
+def rule_compound_order(ctx):
+    from ..ointerp import PyExc
+    chk, idx = ctx['chk'], ctx['idx']
+    rid = 'C05.compound-order'
+    cls = idx.cls(NWU + '.extractors.BaseMergedUnitExtractor')
+    er_cls = idx.cls('recognizers_text.extractor.ExtractResult')
+    owner, fn = idx.find_method(cls, 'extract')
+    if fn is None:
+        raise AnalysisError('anchor vanished: BaseMergedUnitExtractor.extract')
+    vals = []
+    for nm in ('SYS_UNIT_CURRENCY', 'SYS_NUM'):
+        _, node = idx.class_attr(ctx['consts'], nm)
+        if not isinstance(node, ast.Constant) or not isinstance(node.value, str):
+            raise AnalysisError('Constants.%s not found' % nm)
+        vals.append(node.value)
+    cur, num = vals
+    bare_last = probe_candidate_order(ctx)
+    if bare_last is None:
+        chk.observe('C05.compound-order: the probe of NumberWithUnitExtractor.extract does not return a number-less unit next to '
+                    'an amount; only text-ordered candidate lists are tabulated')
+    orders = [('text order', False)] + ([('amounts first, number-less units behind them (what NumberWithUnitExtractor.extract '
+                                          'returns)', True)] if bare_last else [])
+    line = fn.lineno
+    for nm_ in ('__merge_pure_number', '__merged_compound_units'):
+        if nm_ in cls.methods:
+            line = cls.methods[nm_].lineno
+            break
+    joined = 0
+    for name, kinds, seps in COMPOUND_SCENARIOS:
+        text, items = compound_layout(kinds, seps)
+        probs = []
+        for oname, bl in orders:
+            order = candidate_order(items, bl)
+            if bl and order == items:
+                continue
+            try:
+                res = compound_run(idx, cls, fn, owner, text, items, order, er_cls, cur, num)
+                prob = compound_problem(text, items, res)
+                joined += prob is None and 'E' in kinds
+            except PyExc as ex:
+                prob = 'raises %s' % ex
+            if prob:
+                probs.append((oname, [text[s:e] for s, e, _, _ in order], prob))
+        construct = "BaseMergedUnitExtractor.extract [currency]: %s%s" % ("'N main and M fraction', " if 'E' in kinds else '', name)
+        if probs:
+            oname, lst, prob = probs[0]
+            chk.bad(rid, cls.mod.path, construct, '%r, candidates %s: %s' % (text, lst, prob),
+                    'on the text %r (dd = a main unit, ee = its fraction unit, %r = the compound connector) with the candidate list '
+                    '%s in %s: %s. The grouping walks neighbours of the LIST, so the list has to be in text order on every path '
+                    'before it is grouped; the amount must come back as one entity with the main and the fraction amount as its '
+                    "parts ('how many cents are 5 dollars and 30 cents')" % (text, COMPOUND_CONNECTOR, lst, oname, prob), line)
+        else:
+            chk.ok(rid, cls.mod.path, construct, 'one entity with parts (main, fraction) on %r' % text, line)
+    if not joined:
+        raise AnalysisError('BaseMergedUnitExtractor.extract (currency) joins the main and the fraction amount on none of the %d '
+                            'scenarios: the tabulation does not reach the grouping step' % len(COMPOUND_SCENARIOS))
+    chk.observe('C05.compound-order: candidate order read from NumberWithUnitExtractor.extract: number-less units %s'
+                % ('behind the amounts' if bare_last else 'in text order' if bare_last is False else 'not delivered by the probe'))
+
+
 # ---- the emitted value is the number parser's string, culture-formatted no further time (BaseCurrencyParser.parse) ----
 
 def iso_value_problem(has_iso_field, iso_out, iso_in):
@@ -2547,6 +2769,14 @@ def controls(chk, mech):
                 and bool(fit_binding(_obs(dict(PINNED_HYP, value_strip=False)))[1]))
     chk.control('C05.one-entity', one_entity_problem('1 $', [(0, 2, '1 $'), (2, 2, '$')], [(0, 2)]) is not None
                 and one_entity_problem('1 $', [(0, 2, '1 $')], [(0, 2)]) is None and one_entity_problem('1$', [], [(0, 1)]) is not None)
+    ctext, citems = compound_layout('UCE', ',&')
+    chk.control('C05.compound-order',
+                candidate_order(citems, True) == [citems[1], citems[2], citems[0]] and candidate_order(citems, False) == citems
+                and compound_problem(ctext, citems, [(0, 1, 'ee', None), (4, 16, ctext[4:17], [(4, 7), (13, 16)])]) is None
+                and compound_problem(ctext, citems, [(4, 1, '', [(4, 7), (13, 16), (0, 1)])]) is not None
+                and compound_problem(ctext, citems, [(0, 1, 'ee', None), (4, 7, '3 dd', None), (13, 16, '3 ee', None)]) is not None
+                and compound_problem(ctext, citems, [(4, 16, ctext[4:17], [(13, 16), (4, 7)])]) is not None
+                and compound_problem(ctext, citems, [(0, 16, ctext, None), (4, 16, ctext[4:17], [(4, 7), (13, 16)])]) is not None)
     chk.control('C05.iso-value', iso_value_problem(True, '_P', '_P') is not None and iso_value_problem(True, 'NUM', 'EUR') is not None
                 and iso_value_problem(False, None, 'EUR') is not None and iso_value_problem(True, 'EUR', 'EUR') is None
                 and iso_value_problem(False, None, '_P') is None and iso_value_problem(True, None, None) is None)
